@@ -745,6 +745,20 @@ impl KyroDBServiceImpl {
     /// Return the per-tenant quota mutex used to serialize quota check + insert
     /// mutations for a tenant. This prevents double reservation/count drift under
     /// concurrent upserts of the same tenant doc_id.
+    /// One BulkSearch request that is refused (invalid k, empty query, ...) is answered with a
+    /// per-item failure in `SearchResponse.error`. Sending `Err(status)` into the response stream
+    /// would end the stream: the remaining valid requests of the batch got no answer at all (and
+    /// tonic drops the buffered answers that preceded the error).
+    fn bulk_search_item(resp: Result<SearchResponse, Status>) -> Result<SearchResponse, Status> {
+        match resp {
+            Ok(response) => Ok(response),
+            Err(status) => Ok(SearchResponse {
+                error: format!("{:?}: {}", status.code(), status.message()),
+                ..Default::default()
+            }),
+        }
+    }
+
     fn tenant_quota_lock(
         &self,
         tenant: Option<&TenantContext>,
@@ -2260,6 +2274,16 @@ impl KyroDbService for KyroDBServiceImpl {
                             }
                             total_count += 1;
                             if total_count > MAX_BATCH_SIZE {
+                                // Answer the requests accepted so far before refusing the rest.
+                                let batch = std::mem::take(&mut pending);
+                                let responses = service
+                                    .handle_search_requests_batch(tenant.as_ref(), batch)
+                                    .await;
+                                for resp in responses {
+                                    if tx.send(Self::bulk_search_item(resp)).await.is_err() {
+                                        return;
+                                    }
+                                }
                                 let _ = tx
                                     .send(Err(Status::resource_exhausted(format!(
                                         "bulk_search batch size exceeds maximum {}",
@@ -2277,7 +2301,7 @@ impl KyroDbService for KyroDBServiceImpl {
                                     .handle_search_requests_batch(tenant.as_ref(), batch)
                                     .await;
                                 for resp in responses {
-                                    if tx.send(resp).await.is_err() {
+                                    if tx.send(Self::bulk_search_item(resp)).await.is_err() {
                                         return;
                                     }
                                 }
@@ -2296,7 +2320,7 @@ impl KyroDbService for KyroDBServiceImpl {
                                 .handle_search_requests_batch(tenant.as_ref(), batch)
                                 .await;
                             for resp in responses {
-                                if tx.send(resp).await.is_err() {
+                                if tx.send(Self::bulk_search_item(resp)).await.is_err() {
                                     return;
                                 }
                             }
@@ -2311,7 +2335,7 @@ impl KyroDbService for KyroDBServiceImpl {
                         .handle_search_requests_batch(tenant.as_ref(), batch)
                         .await;
                     for resp in responses {
-                        if tx.send(resp).await.is_err() {
+                        if tx.send(Self::bulk_search_item(resp)).await.is_err() {
                             return;
                         }
                     }
